@@ -115,6 +115,8 @@ def write_matrix():
         with open(mp) as f:
             meta = json.load(f)
         cb = meta.get('caught_by') or {}
+        if not isinstance(cb, dict):
+            cb = {'(builder)': str(cb)}
         cells = ['%s: %s' % (p, (v.get('result') if isinstance(v, dict) else v)) for p, v in sorted(cb.items())]
         rows.append('| %s | %s | %s | %s |' % (sid, meta.get('breaks_property', ''),
                                              (meta.get('needs_to_manifest') or '')[:110].replace('|', '/'), '; '.join(cells)))
